@@ -185,7 +185,7 @@ static Result run_read (const Case &c, Result r)
 	for (auto &kv : obs)
 	{	if (kv.first == "vio") continue ; const Obs &o = kv.second ; r.sig.set ("route", kv.first) ;
 		if (o.opened != ref.opened) { Result x = fail ("route_open_outcome_differs", kv.first + ": " + o.describe () + "   vio: " + ref.describe ()) ; x.sig.set ("route", kv.first) ; return x ; }
-		if (!o.opened) { if (o.err != ref.err && kv.first != "embed" && kv.first != "pipe" && kv.first != "slowpipe") { Result x = fail ("route_error_differs", kv.first + ": " + std::to_string (o.err) + " vio: " + std::to_string (ref.err)) ; x.sig.set ("route", kv.first) ; return x ; } continue ; }
+		if (!o.opened) { if (o.err != ref.err && kv.first != "embed" && kv.first != "pipe" && kv.first != "slowpipe") { Result x = fail ("route_error_differs", kv.first + ": " + std::to_string (o.err) + " (" + sf_error_number (o.err) + ") vio: " + std::to_string (ref.err) + " (" + sf_error_number (ref.err) + ")") ; x.sig.set ("route", kv.first) ; x.sig.seti ("route_err", o.err) ; x.sig.seti ("vio_err", ref.err) ; return x ; } continue ; }
 		bool pipe_route = kv.first == "pipe" || kv.first == "slowpipe" ;
 		bool info_same = o.info.samplerate == ref.info.samplerate && o.info.channels == ref.info.channels && o.info.format == ref.info.format && o.info.sections == ref.info.sections && (pipe_route || (o.info.frames == ref.info.frames && o.info.seekable == ref.info.seekable)) ;
 		if (!info_same) { Result x = fail ("route_info_differs", kv.first + ": " + o.describe () + "   vio: " + ref.describe ()) ; x.sig.set ("route", kv.first) ; return x ; }
